@@ -2,6 +2,7 @@ package load
 
 import (
 	"context"
+	"fmt"
 	"testing"
 	"time"
 
@@ -166,6 +167,7 @@ func runC09(tb ev.TB, p c09Prog) ev.Result {
 		}
 		var lerr error
 		var got *loadedLog
+		badContent := ""
 		rivalDone := make(chan struct{})
 		if p.Rival > 0 && !spec.Gated {
 			const read = time.Millisecond
@@ -189,6 +191,12 @@ func runC09(tb ev.TB, p c09Prog) ev.Result {
 			l, err := doLoad(ctx, w.Store.API(), w, loader, manifest, jsonLog, startEntries(p.Shared, heads), hash, nil, spec.Concurrency, nil, 0, extra)
 			lerr = err
 			if err == nil {
+				// what is loaded under an identifier is that entry: same payload, links, clock, key, signature
+				for _, le := range l.GetEntries().Slice() {
+					if info := w.Reg.Get(le.GetHash().String()); info != nil && world.ContentDigest(le) != info.Content && badContent == "" {
+						badContent = fmt.Sprintf("entry %s was loaded with another content than it was written with (next %v refs %v, written next %v refs %v)", world.Short(info.Hash), world.Shorts(world.CidHashes(le.GetNext())), world.Shorts(world.CidHashes(le.GetRefs())), world.Shorts(info.Next), world.Shorts(info.Refs))
+					}
+				}
 				got = &loadedLog{id: l.GetID(), entries: world.SetOf(world.Hashes(l.GetEntries())), heads: world.SetOf(world.Hashes(l.Heads())), values: world.Hashes(l.Values()), length: l.Len()}
 			}
 		})
@@ -198,6 +206,9 @@ func runC09(tb ev.TB, p c09Prog) ev.Result {
 		}
 		if lerr != nil {
 			tb.Fatalf("load #%d via %s failed: %v", li, loader, lerr)
+		}
+		if badContent != "" {
+			tb.Fatalf("%s: %s", loader, badContent)
 		}
 		where := loader
 		if got.id != sim.LogID {
@@ -264,7 +275,7 @@ type loadedLog struct {
 
 func TestC09(t *testing.T) {
 	c := ev.Get("C09")
-	c.Rule = "a generated multi-replica program (default or link-key codec, both orderings, skip references from pointer counts up to 64) builds log states - in about one program in five the log continues, under its own id, a history of 1-9 entries written under another log id, which every replica holds from the start; one replica state is reloaded 1-3 times, each with a generated loader (manifest / JSON heads / head entries / head hash when single-headed), fetch concurrency in {default,1,2,3,16} and - in 3 of 4 loads - a gated store whose outstanding block reads are released in a generated order. In one program in six the ungated loads run next to a rival load of the same heads in the same process that gives up after 1-12 block reads (reads take 1 ms then). The loaded log must have the same id, entry set (== model set), heads (== unreferenced in the model) and values (== reference sort when strict-total, permutation otherwise). Non-trivial = source with >= 2 heads or skip references and at least one read completed out of issue order; distinct = distinct program."
+	c.Rule = "a generated multi-replica program (default or link-key codec, both orderings, skip references from pointer counts up to 64) builds log states - in about one program in five the log continues, under its own id, a history of 1-9 entries written under another log id, which every replica holds from the start; one replica state is reloaded 1-3 times, each with a generated loader (manifest / JSON heads / head entries / head hash when single-headed), fetch concurrency in {default,1,2,3,16} and - in 3 of 4 loads - a gated store whose outstanding block reads are released in a generated order. In one program in six the ungated loads run next to a rival load of the same heads in the same process that gives up after 1-12 block reads (reads take 1 ms then). Every loaded entry must have the content it was written with (payload, links, clock, key, signature). The loaded log must have the same id, entry set (== model set), heads (== unreferenced in the model) and values (== reference sort when strict-total, permutation otherwise). Non-trivial = source with >= 2 heads or skip references and at least one read completed out of issue order; distinct = distinct program."
 	c.Assumptions = []string{"completion orders are produced by a polling controller (settle window 300µs): every order it produces is legal, but a given schedule may map to different orders on a loaded machine; the realised order is stored in the replay file and enforced on replay", "the legacy codec is not reloaded (it cannot read back the v2 entries it writes)"}
 	ev.Check(t, "C09", genC09, runC09)
 }
